@@ -255,7 +255,50 @@ class Inliner:
             elif e.get("k") in ("Tup", "Binary", "MethodCall") and self._pure_arith(e):
                 # a helper returning a pair/expression of plain arithmetic on fields and parameters
                 self.simple.setdefault(b.name, []).append((b, e))
+            elif self._pure_block(b.body):
+                # a private helper made of immutable `let`s and a tail expression of arithmetic / comparisons /
+                # if-else / tuples (what "extract a helper" produces)
+                self.simple.setdefault(b.name, []).append((b, b.body))
         self.depth = 0
+
+    def _pure_block(self, body):
+        if body.get("k") != "Block" or "expr" not in body:
+            return False
+        F = self.F
+        n_nodes = sum(1 for _ in walk(body))
+        if n_nodes > 90:
+            return False
+        for st in body["stmts"]:
+            if is_debug_only(F, st) or (st.get("k") == "If" and st["c"].get("k") == "Lit" and "cfg" in F.mac(st["c"])):
+                continue
+            if st.get("k") == "LetStmt" and st["pat"].get("k") == "PBind" and not st["pat"].get("mut") and "init" in st and "els" not in st and self._pure_expr(st["init"]):
+                continue
+            return False
+        return self._pure_expr(body["expr"])
+
+    def _pure_expr(self, e, depth=0):
+        k = e.get("k")
+        if depth > 10:
+            return False
+        if k in ("Path", "Lit"):
+            return True
+        if k in ("Field", "Cast", "Unary", "AddrOf"):
+            return all(self._pure_expr(c, depth + 1) for c in kids(e))
+        if k == "Tup":
+            return all(self._pure_expr(c, depth + 1) for c in e["es"])
+        if k == "Binary":
+            return self._pure_expr(e["l"], depth + 1) and self._pure_expr(e["r"], depth + 1)
+        if k == "If" and "el" in e and e["c"].get("k") != "Let":
+            return self._pure_expr(e["c"], depth + 1) and self._pure_expr(e["th"], depth + 1) and self._pure_expr(e["el"], depth + 1)
+        if k == "Block" and not e.get("stmts") and "expr" in e:
+            return self._pure_expr(e["expr"], depth + 1)
+        if k == "MethodCall" and e["name"] in ("ilog2", "div_ceil", "min", "max", "saturating_sub", "count_ones", "trailing_zeros", "leading_zeros", "pow", "is_empty", "len", "next_multiple_of", "wrapping_add", "wrapping_sub", "wrapping_mul", "abs_diff", "rotate_left", "rotate_right", "to_le_bytes"):
+            return all(self._pure_expr(c, depth + 1) for c in call_args(e))
+        if k == "MethodCall" and e["name"] in ("expect", "unwrap") and e["recv"].get("k") == "MethodCall" and e["recv"]["name"] in ("checked_mul", "checked_add", "checked_sub"):
+            return all(self._pure_expr(c, depth + 1) for c in call_args(e["recv"]))
+        if k == "Call" and e.get("f", {}).get("k") == "Path" and (self.F.callee(e) or "").startswith(("core::cmp::", "std::cmp::")):
+            return all(self._pure_expr(c, depth + 1) for c in e["args"])
+        return False
 
     def _pure_arith(self, e, depth=0):
         k = e.get("k")
@@ -306,13 +349,24 @@ class Inliner:
                 sub.env[p["id"]] = a
         self.depth += 1
         try:
+            if e is b.body and e.get("k") == "Block":
+                t = sub._closure_body_term(e)
+                return t
             return sub.term(e)
         finally:
             self.depth -= 1
 
 
 def make_inliner(F):
-    return Inliner(F)
+    inl = getattr(F, "_default_inliner", None)
+    if inl is None:
+        inl = Inliner(F)
+        F._default_inliner = inl
+    return inl
+
+
+import sym as _sym
+_sym.DEFAULT_INLINER_FACTORY = make_inliner
 
 
 @rule("R03.7", props=["C03", "C04", "C06"], floor=5, title="word scans: a bit position is taken (trailing_zeros/leading_zeros) only from a window known to be non-zero")
